@@ -115,7 +115,11 @@ package cache
 //@   nilrecv
 //@   requires req != nil && msg != nil && len(req.Question) >= 1 && len(req.Question[0].Name) <= 255 && validRRs(msg.Answer) && validRRs(msg.Ns) && validRRs(msg.Extra)
 //@   requires m != nil ==> m.cache != nil
-//@   modifies lastLowest, dns.RR_Header.Ttl, gstores, gkey, gval
+//@   modifies lastLowest, dns.RR_Header.Ttl, gstores, gkey, gval, gexp
+//@   ensures a-failure-is-kept-no-longer-than-its-own-ttl: m != nil && gstores[m.cache] == old(gstores[m.cache]) + 1 && old(msg.Rcode) == 2 ==>
+//@             gexp[m.cache] == lastLowest * 1000000000 && gexp[m.cache] <= 30000000000
+//@   ensures kept-for-its-lowest-ttl-unless-the-override-applies: m != nil && gstores[m.cache] == old(gstores[m.cache]) + 1 && !m.overrideTTL ==>
+//@             gexp[m.cache] == lastLowest * 1000000000
 //@   ensures at-most-one-store: m != nil ==> gstores[m.cache] <= old(gstores[m.cache]) + 1
 //@   ensures stored-under-request-key: m != nil && gstores[m.cache] == old(gstores[m.cache]) + 1 ==>
 //@             keyLayout(gkey[m.cache], old(hasDO(req)), old(req.Question[0].Qtype), old(req.Question[0].Qclass), old(req.Question[0].Name))
